@@ -102,6 +102,11 @@ def gen_cases(ctx):
             # panicking owner (Drop runs while thread::panicking()): both must drain like any other drop
             cases.append("pool %d %s D" % (n, " ".join(["s1000"] * 150)))
             cases.append("pool %d %s U" % (n, " ".join(["s2000"] * 6)))
+            # jobs submitted with request ids that repeat (execute_req): the id a job carries must not matter
+            cases.append("pool %d R1 %s D" % (n, " ".join(["s1000"] * 12)))
+            cases.append("pool %d R3 %s D" % (n, " ".join(["i", "s500", "i", "i", "s2000", "i"] * 2)))
+            # jobs still running long after the drop was issued (1.5 s each): drop waits for all of them
+            cases.append("pool %d %s D" % (n, " ".join(["s1500000"] * (n + 1))))
             cases.append("pool %d %s U" % (n, " ".join(["i"] * 5 + ["s3000"] * 3)))
             if n >= 2:
                 cases.append("pool %d w3 i i i D" % n)
